@@ -113,19 +113,30 @@ def check_term(label, term, dicts, res, digest=None, light=False):
                 # abandoned members makes the reported set sufficient.
                 r = Ref()
                 r.run(term, o)
-                extra = {k for k, present in r.abandoned_reads if present and exists(o, k)}
-                if extra - keys:
-                    o3 = restrict(o, keys | extra)
-                    e3 = observe(wt, lambda: objt.evaluate(copy.deepcopy(o3)))
-                    if same_obs(e1, e3) is None:
-                        kind = "coalesce-abandoned-member-keys-unreported"
+                for origin, sigkind in (("coalesce", "coalesce-abandoned-member-keys-unreported"), ("dispatch", "failed-dispatch-keys-unreported")):
+                    extra = {k for k, present in r.abandoned_by_origin.get(origin, ()) if present and exists(o, k)}
+                    if extra - keys:
+                        o3 = restrict(o, keys | extra)
+                        e3 = observe(wt, lambda: objt.evaluate(copy.deepcopy(o3)))
+                        if same_obs(e1, e3) is None:
+                            kind = sigkind
+                            break
+                if kind == "keys-insufficient":
+                    both = {k for k, present in r.abandoned_reads if present and exists(o, k)}
+                    if both - keys:
+                        o3 = restrict(o, keys | both)
+                        e3 = observe(wt, lambda: objt.evaluate(copy.deepcopy(o3)))
+                        if same_obs(e1, e3) is None:
+                            kind = "coalesce-abandoned-member-keys-unreported"
+                            extra = both
                 if kind == "keys-insufficient":
                     fail(kind, o, f"keys(o)={sorted(keys)} restricted={o2!r}: {d}")
                 else:
                     res["known_family_cases"] = res.get("known_family_cases", 0) + 1
                     if not any(f["sig"] == "C03|" + kind for f in fails):
                         fails.append({"sig": "C03|" + kind,
-                                      "what": "Coalesce.keys() omits present keys that made an earlier member fail",
+                                      "what": ("Coalesce.keys() omits present keys that made an earlier member fail" if kind.startswith("coalesce")
+                                               else "Switch.keys() omits present keys that made the dispatch fail (default chosen)"),
                                       "detail": f"{label} under {o!r}: keys(o)={sorted(keys)} restricted={o2!r}: {d}; sufficient with {sorted(extra)} added",
                                       "case": ("one", label, term, dicts)})
             f2 = observe(wk, lambda: objk.fingerprint(copy.deepcopy(o2)))
